@@ -169,6 +169,14 @@ func (m *MuxMon) Step(h *MuxH, i int) (vs []Viol) {
 	okDecode := len(rest) == 0
 	for k, b := range raw {
 		p, err := ref.DecodePkt(b)
+		if err != nil && c.Op.K == "pkt" && c.Op.Pkt == "stalefit" && len(b) == 188 && b[0] == 0x47 {
+			// the caller described a packet that cannot exist (adaptation field only, the field shorter than the packet): what
+			// the library makes of it - the field as given, 0xFF behind it - is 188 bytes behind a sync byte, and that is all
+			// that is demanded of it
+			okDecode = false
+			ps = append(ps, p)
+			continue
+		}
 		if err != nil {
 			add("C04", "undecodable-packet:"+c.Op.K+":"+c.Op.Pkt, "packet %d of the call: %v", k, err)
 			okDecode = false
@@ -270,6 +278,14 @@ func (m *MuxMon) Step(h *MuxH, i int) (vs []Viol) {
 	case "pkt":
 		// caller-built packets: not the Muxer's PIDs; C04 alignment was checked above
 		valid := c.Op.Pkt == "null" || c.Op.Pkt == "ownpid" || c.Op.Pkt == "afonly" || c.Op.Pkt == "short" || c.Op.Pkt == "shortaf" || c.Op.Pkt == "priv0pkt" || c.Op.Pkt == "staleaf" || c.Op.Pkt == "fitpriv" || c.Op.Pkt == "fitpcrext"
+		if c.Op.Pkt == "stalefit" {
+			// a payload attached to a packet whose header says "no payload": refusing it or writing the packet without
+			// it are both fine - what reaches the writer is one whole packet or nothing (alignment is checked above)
+			if c.Err == nil && len(out) != 188 {
+				add("C04", "accepted-packet-not-188-bytes:"+c.Op.Pkt, "accepted packet delivered %d bytes", len(out))
+			}
+			return
+		}
 		if valid && (c.Err != nil || len(out) != 188) {
 			add("C04", "valid-packet-rejected:"+c.Op.Pkt, "valid packet: n=%d err=%v", c.N, c.Err)
 		}
